@@ -32,6 +32,20 @@ int vectorSet(const MPT_STRUCT(queue) *qu, struct iovec src[2])
 	return 1;
 }
 
+static void moveFront(const MPT_STRUCT(queue) *qu, size_t to, size_t from, size_t len)
+{
+	uint8_t buf[256];
+	
+	while (len) {
+		size_t part = len < sizeof(buf) ? len : sizeof(buf);
+		mpt_queue_get(qu, from, part, buf);
+		mpt_queue_set(qu, to, part, buf);
+		from += part;
+		to += part;
+		len -= part;
+	}
+}
+
 /*!
  * \ingroup mptQueue
  * \brief get next message
@@ -101,8 +115,8 @@ extern int mpt_queue_recv(MPT_STRUCT(decode_queue) *qu)
 	if (mpt_qpre(&qu->data, max) < 0) {
 		return MPT_ERROR(MissingBuffer);
 	}
-	/* correct data area offsets */
-	qu->_state.data.pos += max;
+	/* keep decoded data in place, new space is needed before encoded data */
+	moveFront(&qu->data, qu->_state.data.pos, qu->_state.data.pos + max, qu->_state.data.len);
 	qu->_state.curr += max;
 	
 	/* retry with bigger prefix space */
